@@ -21,6 +21,9 @@ def run(m, chk):
     chk.not_decided = ["L2-orthogonality of the residual", "D = C when C lies in S", "sign / scale of the returned error"]
     pairing(r, chk, ["heavy.LeastSquare.func2func"], floor=4)
     fit_flow(r, chk)
+    from .extra import poly_only
+
+    poly_only(r, chk, [FQ], floor=2)
     arg_flow(r, chk, "ARG-FLOW", FQ, "LeastSquare.spline2spline", "oldknotvector", ["other.knotvector"])
     arg_flow(r, chk, "ARG-FLOW", FQ, "LeastSquare.spline2spline", "newknotvector", ["self.knotvector"])
     arg_flow(r, chk, "ARG-FLOW", FQ, "LeastSquare.func2func", "oldknotvector", ["other.knotvector"])
